@@ -135,6 +135,11 @@ func c11Lock(s *Store) (numReaders int, owner string) {
 }
 
 func c11NewEnv(t *testing.T, mode string) (*c11Env, error) {
+	_, before := c11Dump() // reaper goroutines of earlier stores that a failed schedule left behind
+	old := map[uint64]bool{}
+	for _, g := range before {
+		old[g] = true
+	}
 	store, err := NewStore(t.TempDir())
 	if err != nil {
 		return nil, err
@@ -152,14 +157,24 @@ func c11NewEnv(t *testing.T, mode string) (*c11Env, error) {
 		<-e.release
 		return false
 	}))
-	_, loops := c11Dump()
+	fresh := func() []uint64 {
+		_, all := c11Dump()
+		var l []uint64
+		for _, g := range all {
+			if !old[g] {
+				l = append(l, g)
+			}
+		}
+		return l
+	}
+	loops := fresh()
 	for i := 0; i < 5000 && len(loops) == 0; i++ { // the goroutine may not have run yet
 		time.Sleep(time.Millisecond)
-		_, loops = c11Dump()
+		loops = fresh()
 	}
 	if len(loops) != 1 {
 		store.Close()
-		return nil, fmt.Errorf("%d reapLoop goroutines alive", len(loops))
+		return nil, fmt.Errorf("%d new reapLoop goroutines", len(loops))
 	}
 	e.loopGid = loops[0]
 	createSnapshotInStore(t, store, snapshotName(2, 1017), 1017, 2, 1, "testdata/db-and-wals/backup.db")
@@ -185,6 +200,9 @@ func (e *c11Env) settle() bool {
 					e.loop = "reaping"
 				} else {
 					e.manual = "reaping"
+				}
+				if e.loop == "reaping" && e.manual == "reaping" {
+					e.setFail("C11:two-reapers", "Store.Reap and the reaper goroutine are inside reap() at the same time")
 				}
 			default:
 				more = false
@@ -318,6 +336,9 @@ func (e *c11Env) do(op c11Op) c11StepRes {
 		before := time.Now()
 		n, err := s.rc.Read(buf)
 		act := "ARead " + coqNat(op.I)
+		if s.fired && !errors.Is(err, ErrSnapshotReaderTimeout) {
+			e.setFail("C11:read-after-timeout", fmt.Sprintf("stream %d was force-closed by its idle timer, yet Read returned (%d, %v) instead of the timeout error", op.I, n, err))
+		}
 		switch {
 		case errors.Is(err, ErrSnapshotReaderTimeout):
 			return c11StepRes{act: act, obs: "OTimeoutErr"}
@@ -417,9 +438,17 @@ func (e *c11Env) do(op c11Op) c11StepRes {
 		if e.manual != "reaping" {
 			return c11StepRes{skip: true}
 		}
-		e.release <- struct{}{}
-		if err := <-e.manDone; err != nil {
-			e.setFail("C11:reap-failed", "Store.Reap: "+err.Error())
+		if !e.sendRelease() {
+			return c11StepRes{act: "AReapEnd", obs: "stuck"}
+		}
+		select {
+		case err := <-e.manDone:
+			if err != nil {
+				e.setFail("C11:reap-failed", "Store.Reap: "+err.Error())
+			}
+		case <-time.After(20 * time.Second):
+			e.setFail("C11:reap-stuck", "Store.Reap did not return within 20 s of being released from the observer")
+			return c11StepRes{act: "AReapEnd", obs: "OPanic"}
 		}
 		e.manual = ""
 		e.refreshID()
@@ -433,17 +462,20 @@ func (e *c11Env) do(op c11Op) c11StepRes {
 		if !e.settle() {
 			return c11StepRes{act: "ALoopBegin", obs: "stuck"}
 		}
-		if e.loop == "reaping" {
+		switch e.loop {
+		case "reaping":
 			return c11StepRes{act: "ALoopBegin", obs: "OOk"}
+		case "waiting":
+			return c11StepRes{act: "ALoopBegin", obs: "OBlocked"}
 		}
-		return c11StepRes{act: "ALoopBegin", obs: "OBlocked"}
+		e.setFail("C11:reaper-gave-up", fmt.Sprintf("the reaper goroutine was signalled with %d streams open and went back to idle without reaping or waiting", e.nOpen()))
+		return c11StepRes{act: "ALoopBegin", obs: "OConflict"}
 	case "loopend":
 		if e.loop != "reaping" {
 			return c11StepRes{skip: true}
 		}
 		e.loop = "ending"
-		e.release <- struct{}{}
-		if !e.settle() {
+		if !e.sendRelease() || !e.settle() {
 			return c11StepRes{act: "ALoopEnd", obs: "stuck"}
 		}
 		e.refreshID()
@@ -498,6 +530,15 @@ func (e *c11Env) do(op c11Op) c11StepRes {
 	panic("bad op " + op.Op)
 }
 
+func (e *c11Env) sendRelease() bool {
+	select {
+	case e.release <- struct{}{}:
+		return true
+	case <-time.After(20 * time.Second):
+		return false
+	}
+}
+
 func (e *c11Env) nOpen() int {
 	n := 0
 	for _, s := range e.streams {
@@ -509,6 +550,26 @@ func (e *c11Env) nOpen() int {
 }
 
 func (e *c11Env) cleanup() {
+	defer func() { recover() }()
+	if e.fail != "" {
+		// inconsistent lock state is possible: release whoever waits and do not wait for the reaper
+		for _, s := range e.streams {
+			if s.rc != nil {
+				c11Call(s.rc.Close)
+			}
+		}
+		go func() {
+			defer func() { recover() }()
+			for i := 0; i < 4; i++ {
+				select {
+				case e.release <- struct{}{}:
+				case <-time.After(50 * time.Millisecond):
+				}
+			}
+			e.store.Close()
+		}()
+		return
+	}
 	for _, s := range e.streams {
 		if s.rc != nil {
 			c11Call(s.rc.Close)
@@ -518,12 +579,15 @@ func (e *c11Env) cleanup() {
 		e.settle()
 		switch {
 		case e.manual == "reaping":
-			e.release <- struct{}{}
-			<-e.manDone
+			e.sendRelease()
+			select {
+			case <-e.manDone:
+			case <-time.After(20 * time.Second):
+			}
 			e.manual = ""
 		case e.loop == "reaping":
 			e.loop = "ending"
-			e.release <- struct{}{}
+			e.sendRelease()
 		case e.loop == "idle" && e.manual == "":
 			e.store.Close()
 			return
@@ -535,6 +599,11 @@ func (e *c11Env) cleanup() {
 
 // c11RunSchedule runs ops (or, with gen != nil, generates them while running) and emits one case.
 func c11RunSchedule(t *testing.T, w *vWriter, in c11Input, gen func(e *c11Env) (c11Op, bool)) {
+	defer func() { // keep what was found even if the process dies later (panic in a timer goroutine)
+		w.mu.Lock()
+		w.w.Flush()
+		w.mu.Unlock()
+	}()
 	e, err := c11NewEnv(t, in.Mode)
 	if err != nil {
 		w.Emit(VCase{Input: in, Key: vJSON(in), Inconcl: "setup: " + err.Error()})
@@ -557,7 +626,15 @@ func c11RunSchedule(t *testing.T, w *vWriter, in c11Input, gen func(e *c11Env) (
 		}
 		wasWaiting := e.loop == "waiting"
 		openBefore := e.nOpen()
-		r := e.do(op)
+		var r c11StepRes
+		if _, p := c11Call(func() error { r = e.do(op); return nil }); p {
+			// a panic escaping a store call (e.g. "reader count went negative" in an unrelated List)
+			e.setFail("C11:panic", fmt.Sprintf("step %d (%s %d): a store call panicked", i, op.Op, op.I))
+			if gen != nil {
+				in.Ops = append(in.Ops, op)
+			}
+			break
+		}
 		if r.skip {
 			continue
 		}
@@ -565,21 +642,35 @@ func c11RunSchedule(t *testing.T, w *vWriter, in c11Input, gen func(e *c11Env) (
 			in.Ops = append(in.Ops, op)
 		}
 		if r.obs == "stuck" || !e.settle() {
-			w.Emit(VCase{Input: in, Key: vJSON(in), Inconcl: "no quiescence within 20 s after " + op.Op})
+			if e.fail == "" {
+				e.setFail("C11:stuck", fmt.Sprintf("step %d (%s): the store did not become quiescent within 20 s", i, op.Op))
+			}
+			w.Emit(VCase{Input: in, Key: vJSON(in), OracleFail: e.fail, Sig: e.sig})
 			return
 		}
 		loopAfterDo := e.loop
+		// fires, reaper state and lock state must be one consistent snapshot: a real timer may fire
+		// at any moment, so re-read until no new fire shows up after the lock was read
 		fired := e.detectFires(time.Now())
-		if len(fired) > 0 && !e.settle() { // a fire may have woken the reaper
-			w.Emit(VCase{Input: in, Key: vJSON(in), Inconcl: "no quiescence within 20 s after idle fire"})
-			return
+		var nr int
+		var owner string
+		for round := 0; ; round++ {
+			if (len(fired) > 0 || round > 0) && !e.settle() { // a fire may have woken the reaper
+				w.Emit(VCase{Input: in, Key: vJSON(in), Inconcl: "no quiescence within 20 s after idle fire"})
+				return
+			}
+			nr, owner = c11Lock(e.store)
+			more := e.detectFires(time.Now())
+			if len(more) == 0 {
+				break
+			}
+			fired = append(fired, more...)
 		}
 		didFire := len(fired) > 0
 		if op.Op == "fire" {
 			fired = nil // an explicit action of the schedule, not an observation
 		}
 		acquired := (wasWaiting || loopAfterDo == "waiting") && e.loop == "reaping"
-		nr, owner := c11Lock(e.store)
 
 		// ---- oracles (property text)
 		reaping := e.manual == "reaping" || e.loop == "reaping"
@@ -614,6 +705,9 @@ func c11RunSchedule(t *testing.T, w *vWriter, in c11Input, gen func(e *c11Env) (
 		steps = append(steps, fmt.Sprintf("{| so_act := %s; so_obs := %s; so_fired := %s; so_loop_acquired := %s; so_nr := %s; so_owner := %s |}",
 			r.act, r.obs, coqList(fs), coqBool(acquired), coqZ(int64(nr)), coqStr(owner)))
 		keyb = append(keyb, fmt.Sprintf("%s%d>%s%v%v", op.Op, op.I, r.obs, fired, acquired))
+		if e.fail != "" {
+			break // the store's state can no longer be trusted; report what was found (incl. this step)
+		}
 	}
 	vc := VCase{Input: in, Coq: "{| c_steps := " + coqList(steps) + " |}", Key: in.Mode + ":" + strings.Join(keyb, ","),
 		Nontrivial: fires > 0 && reapWhileOpen > 0, Tags: []string{"mode-" + in.Mode}}
